@@ -5,6 +5,7 @@ use crate::gen::*;
 use crate::gen_b::*;
 use crate::oracle_conn::*;
 use crate::oracle_rate::RfcOracle;
+use crate::oracle_time::*;
 use crate::oracle_transport::*;
 use crate::oracle_twin::{twin_run, AckForger};
 use crate::oracle_wire::*;
@@ -1044,6 +1045,75 @@ pub fn c18() -> CheckDef {
     }
 }
 
+
+// ------------------------------------------------------------------------------------------ C09
+
+fn c09_gen(seed: u64, run: u64, thorough: bool) -> Plan {
+    world_b_disconnect("C09", "b_disconnect", seed, run, thorough)
+}
+fn c09_oracles(_plan: &Plan) -> Vec<Box<dyn Oracle>> {
+    with_states(vec![Box::new(DisconnectOracle::new("C09")), Box::new(EventAutomaton::new("C09"))])
+}
+
+pub fn c09() -> CheckDef {
+    CheckDef {
+        property: "C09",
+        families: vec![Family { name: "b_disconnect", world: "B", weight: 1, gen: c09_gen, oracles: c09_oracles, adversary: None, keep_workload: false, custom: None,
+            what: "0-200 packets of mixed modes queued, then disconnect() (70 %) or disconnect_now() from the client or the server; loss/dup/reorder/corruption of data, ack, disconnect and disconnect-ack frames; total or one-way blackout starting right after the call (sometimes healing); the peer passive or (15 %) disconnecting as well; active timeouts 2-20 s" }],
+        panic_is_violation: no_panics,
+        hang_is_violation: false,
+        quick_runs: 1500,
+        thorough_runs: 40_000,
+        rule: "one case = one simulated run; distinct = distinct run digest; non-trivial = a flush guarantee or a termination deadline was evaluated",
+        real_code: REAL_B,
+        stubs: STUB_B,
+        assumptions: vec![
+            "deadline of the caller: first Disconnect frame on the wire + 22 s + 11 step periods + 1 s; deadline of the peer: max(that instant + 22 s, the last time it heard a data/ack/sync frame + its active timeout) + 2 step periods + 1 s (the peer learns of the disconnect from frames only)",
+            "no clock skew in this scenario; when both sides disconnect no flush claim is made (as the statement says)",
+        ],
+    }
+}
+
+// ------------------------------------------------------------------------------------------ C10
+
+fn c10_gen_silence(seed: u64, run: u64, thorough: bool) -> Plan {
+    world_b_silence("C10", "b_silence", seed, run, thorough)
+}
+fn c10_gen_idle(seed: u64, run: u64, thorough: bool) -> Plan {
+    world_b_idle("C10", "b_idle_keepalive", seed, run, thorough)
+}
+fn c10_gen_retry(seed: u64, run: u64, thorough: bool) -> Plan {
+    world_b_retry("C10", "b_retry_budget", seed, run, thorough)
+}
+fn c10_oracles(_plan: &Plan) -> Vec<Box<dyn Oracle>> {
+    with_states(vec![Box::new(TimeoutOracle::new("C10"))])
+}
+
+pub fn c10() -> CheckDef {
+    CheckDef {
+        property: "C10",
+        families: vec![
+            Family { name: "b_silence", world: "B", weight: 16, gen: c10_gen_silence, oracles: c10_oracles, adversary: None, keep_workload: false, custom: None,
+                what: "active timeouts 0.2-60 s chosen independently per side, keepalive on/off (0.1-30 s), the handshake loses its first k = 0..10 SYNs or SYN-ACKs (swept by run index), busy or idle connections, blackouts of 0.1-70 s in one or both directions, clocks skewed by +-2 % and jumping forward by 0.1-5 s, step periods 1-400 ms with jitter and stalls; every Error(Timeout) and every step is checked against the endpoint's own clock" },
+            Family { name: "b_retry_budget", world: "B", weight: 6, gen: c10_gen_retry, oracles: c10_oracles, adversary: None, keep_workload: false, custom: None,
+                what: "unanswered handshakes (no server, total blackout, SYN-ACKs lost) and disconnect_now() into a blackout: exactly 1 + 10 transmissions at least 2 s apart, Error(Timeout) no earlier than 22 s after the first" },
+            Family { name: "b_idle_keepalive", world: "B", weight: 1, gen: c10_gen_idle, oracles: c10_oracles, adversary: None, keep_workload: false, custom: None,
+                what: "loss-free link, idle connection, keepalive interval such that max(interval, 2 s) + RTT + 2 step periods fits 1.25-4.25 times into the timeout: no timeout during 1-2 (thorough: 1-6) simulated hours" },
+        ],
+        panic_is_violation: no_panics,
+        hang_is_violation: false,
+        quick_runs: 1400,
+        thorough_runs: 35_000,
+        rule: "one case = one simulated run; k lost handshake frames = (run index / 2) mod 11; distinct = distinct run digest; non-trivial = at least 10 steps of an established connection were checked for promptness, or a retry budget was evaluated",
+        real_code: REAL_B,
+        stubs: STUB_B,
+        assumptions: vec![
+            "the harness mirrors only the definition: per endpoint, the local millisecond time of every step and which valid frames of which type that step read from which address; establishment itself counts as the first instant the peer was heard",
+            "soundness counts data/ack/sync frames (the ones that prove the peer alive on this connection); promptness is only demanded when no valid frame of any type from the peer was read in that step",
+        ],
+    }
+}
+
 // ------------------------------------------------------------------------------------------ C11
 
 fn c11_plan(scenario: &str, seed: u64, run: u64, thorough: bool, rate_recovery: bool) -> Plan {
@@ -1320,7 +1390,7 @@ pub fn c20() -> CheckDef {
 }
 
 pub fn all() -> Vec<CheckDef> {
-    vec![c01(), c02(), c03(), c04(), c05(), c06(), c07(), c08(), c11(), c12(), c13(), c14(), c15(), c17(), c18(), c19(), c20()]
+    vec![c01(), c02(), c03(), c04(), c05(), c06(), c07(), c08(), c09(), c10(), c11(), c12(), c13(), c14(), c15(), c17(), c18(), c19(), c20()]
 }
 
 pub fn by_id(id: &str) -> Option<CheckDef> {
